@@ -78,6 +78,9 @@ RetShapes == { <<"error">>, <<"string", "error">>, <<"p1.Item", "error">>, <<"[]
 MthP(verb, ps, ret, errs, resp) ==
     [file |-> "", verb |-> verb, route |-> RouteFor(ps, 1), uniq |-> TRUE, hidden |-> FALSE, deprecated |-> FALSE, sec |-> <<>>,
      sig |-> SigOf(ps), anns |-> AnnsOf(ps, 1), ret |-> ret, errors |-> errs, response |-> resp, desc |-> ""]
+\* every single parameter kind exhaustively (one method per project, both dialects through the main + alt runs)
+CfgsC06one == { Cfg("gin", "3.0.0", FALSE, NoSec, <<"s1">>) }
+MethodsC06single == { MthP("POST", <<a>>, <<"p1.Item", "error">>, <<E(500)>>, 0) : a \in ParamsC06 }
 CfgsC06 == { Cfg("gin", v, FALSE, NoSec, <<"s1">>) : v \in {"3.0.0", "3.1.0"} }
 CtrlsC06 == { Ctl("p1", "f1", "AController", "/a", "A", <<>>) }
 MethodsC06 == { MthP(verb, ps, ret, errs, resp) : verb \in {"POST"}, ps \in ParamLists, ret \in RetShapes,
@@ -116,6 +119,12 @@ RetsC07 == { <<"error">>, <<"p1.Doc", "error">>, <<"p1.Order", "error">>, <<"[]p
              <<"map[string]p2.Line", "error">>, <<"p1.Item", "p1.MyErr">> }
 CfgsC07 == CfgsC06
 MethodsC07 == { MthP("POST", ps, ret, errs, 0) : ps \in {<<>>} \cup {<<a>> : a \in ParamsC07}, ret \in RetsC07, errs \in {<<>>, <<E(500)>>} }
+
+\* ---- C19/C20: controllers in files no glob matches, in packages that are only loaded because a model type lives there -------
+\* (matched controllers live in p1; p2 holds model types and - in files the globs do not match - controllers that must stay unseen)
+CtlOut(pkg, file, name, prefix) == [Ctl(pkg, file, name, prefix, name, <<>>) EXCEPT !.desc = ""] @@ [outside |-> TRUE]
+CtrlsC19 == { Ctl("p1", f, n, pre, n, <<>>) : f \in {"f1", "f2"}, n \in {"AController", "BController"}, pre \in {"/a", "/b"} }
+            \cup { CtlOut(pk, "x1", n, pre) : pk \in {"p1", "p2"}, n \in {"CController", "DController"}, pre \in {"/a", "/c"} }
 
 \* ---- C14: hostile inputs - malformed annotation properties, arbitrary validator tags, unsupported type shapes ------------------
 SRaw(n, raw) == [scheme |-> n, scopes |-> <<>>, rawProps |-> raw]
